@@ -86,6 +86,10 @@ GroupCount(s, g, k) == Cardinality({i \in 1..Len(s) : InGroup(s, g, k, i)})
 Vals(s, g, k, f) ==
   LET idx == IdxWhere(s, LAMBDA i : InGroup(s, g, k, i) /\ Has(s[i], f)) IN [n \in 1..Len(idx) |-> Get(s[idx[n]], f)]
 
+\* the indices of the records of i's group (i has the group-by fields)
+GIdx(s, g, i) == IdxWhere(s, LAMBDA j : SameGroup(s, g, i, j))
+PosIn(idx, i) == CHOOSE n \in 1..Len(idx) : idx[n] = i
+
 \* ---------------------------------------------------------------- accumulators over a sequence of texts
 \* reference-main-null-data.md: an empty value is the CSV way of a missing one, "the sum should simply continue":
 \* empty texts take part in null_count only.
@@ -177,6 +181,23 @@ ExpStats1(c, s, go) ==
   [n \in 1..Len(ks) |->
      OptIfNothingRequired(GPairs(c.g, ks[n]), [m \in 1..Len(c.f) |-> AccPairs(c.f[m], c.a, Vals(s, c.g, ks[n], c.f[m]))])]
 
+\* stats1 -w n: "compute statistics over a trailing window of up to n records (including the current one) ... Windows are kept
+\* per group when -g is used.  One output record is emitted per input record, with the windowed statistics appended to it."
+\* The window can be read as the last n records of the group (rd = "records") or the last n of them having the value field
+\* (rd = "contributing"); what happens to a record lacking a group-by field is not documented (dropped or passed unchanged).
+ExpStats1W(c, s, rd) ==
+  [i \in 1..Len(s) |->
+     IF ~HasAll(s[i], c.g) THEN OptRec(AsReq(s[i]))
+     ELSE LET G == GIdx(s, c.g, i)
+              upto == SelIdx(G, LAMBDA n : G[n] <= i)
+              blocks == [m \in 1..Len(c.f) |->
+                 LET f == c.f[m]
+                     cand == IF rd = "records" THEN upto ELSE SelIdx(upto, LAMBDA n : Has(s[upto[n]], f))
+                     w == IF Len(cand) <= c.n THEN cand ELSE SubSeq(cand, Len(cand) - c.n + 1, Len(cand))
+                     have == SelIdx(w, LAMBDA n : Has(s[w[n]], f))
+                 IN AccPairs(f, c.a, [n \in 1..Len(have) |-> Get(s[have[n]], f)])]
+          IN [opt |-> FALSE, alts |-> {AsReq(s[i]) \o Flatten1([m \in 1..Len(blocks) |-> blocks[q[m]]]) : q \in OrdersOf(Len(blocks))}]]
+
 \* ---------------------------------------------------------------- merge-fields -f / -r (the harness derives the regex ^(x|y)$ from
 \* the names) / -c (collapse names are given as a table: field name -> name after removing the substring)
 Named(c, k) == \E m \in 1..Len(c.f) : c.f[m] = k
@@ -206,9 +227,6 @@ StepName(a, rd) == IF a.k = "from-first" THEN rd.ff
                    ELSE IF a.p = 0 THEN a.k ELSE a.k \o "_" \o ToString(a.p)
 StepCount(a) == IF a.p = 0 THEN 1 ELSE a.p
 IsLead(a) == a.k = "shift_lead"
-\* indices of i's group, and those of them having f
-GIdx(s, g, i) == IdxWhere(s, LAMBDA j : SameGroup(s, g, i, j))
-PosIn(idx, i) == CHOOSE n \in 1..Len(idx) : idx[n] = i
 StepValue(a, s, g, f, i, rd) ==     \* <<text, decided>>
   LET G == GIdx(s, g, i)
       Gf == SelIdx(G, LAMBDA n : Has(s[G[n]], f))
@@ -386,12 +404,58 @@ ExpHistogram(c, s) ==
         Rec(<<Req(pre \o "bin_lo", HalfText(edge2(i - 1))), Req(pre \o "bin_hi", HalfText(edge2(i)))>>
             \o [m \in 1..Len(c.f) |-> Req(pre \o c.f[m] \o "_count", ToString(cnt(c.f[m], i - 1)))])]
 
+\* ---------------------------------------------------------------- the DSL statistics functions (reference-dsl-builtin-functions.md)
+\* applied to the collection of the values of field f of the records having it (the harness spells
+\* put -q 'begin{@v={}} @v[NR]=$x; end{@o={}; @o["count"]=count(@v); ...; @o["p25"]=percentile(@v,25); ...; emit @o}').
+\* Unlike the verbs these functions are documented over ALL elements: count is "the length of an array or map", null_count
+\* counts the empty ones, mode/antimode/distinct_count work on the stringified values, minlen/maxlen on string lengths ("void for
+\* array/map of length less than two" next to an example of length two: shorter ones are not decided), mean/median/percentile
+\* "Returns empty string AKA void for empty array/map".  Sorting a collection that contains empty values is not documented.
+NoEmpty(vs) == \A i \in 1..Len(vs) : vs[i] # ""
+SumSq(b) == LET F[i \in 0..Len(b)] == IF i = 0 THEN 0 ELSE F[i - 1] + NumOf[b[i]] * NumOf[b[i]] IN F[Len(b)]
+PercentilesList == <<25, 75>>          \* the harness spells percentiles(@v,[25,75])
+DslDetermined(a, vs) ==
+  CASE a.k \in {"count", "null_count", "distinct_count"} -> TRUE
+    [] a.k \in {"sum", "sum2"} -> AllNum(vs)
+    [] a.k = "mean" -> vs = <<>> \/ (AllNum(vs) /\ Halves(SumN(vs), Len(vs)))
+    [] a.k \in {"mode", "antimode"} -> vs # <<>>
+    [] a.k \in {"minlen", "maxlen"} -> Len(vs) >= 2
+    [] a.k \in {"median", "p"} -> vs = <<>> \/ (NoEmpty(vs) /\ OneText(vs))
+    [] OTHER -> FALSE
+DslValue(a, vs) ==
+  CASE a.k = "count" -> ToString(Len(vs))
+    [] a.k = "null_count" -> ToString(Cardinality({i \in 1..Len(vs) : vs[i] = ""}))
+    [] a.k = "distinct_count" -> ToString(Cardinality({vs[i] : i \in 1..Len(vs)}))
+    [] a.k = "sum" -> ToString(SumN(vs))
+    [] a.k = "sum2" -> ToString(SumSq(vs))
+    [] a.k = "mean" -> IF vs = <<>> THEN "" ELSE QuotText(SumN(vs), Len(vs))
+    [] a.k = "mode" -> Mode(vs)
+    [] a.k = "antimode" -> AntiMode(vs)
+    [] a.k = "minlen" -> ToString(MinLen(vs))
+    [] a.k = "maxlen" -> ToString(MaxLen_(vs))
+    [] a.k = "median" -> IF vs = <<>> THEN "" ELSE Percentile(vs, 50)
+    [] a.k = "p" -> IF vs = <<>> THEN "" ELSE Percentile(vs, a.p)
+ExpDsl(c, s) ==
+  LET vs == Vals(s, <<>>, <<>>, c.f[1])
+      sortable == vs # <<>> /\ NoEmpty(vs) /\ OneText(vs)
+      one(a) == LET key == AccName(a) IN
+                CASE a.k = "sort_collection" ->      \* an array: emitted flattened as sort_collection.1, .2, ...
+                       IF sortable THEN [k \in 1..Len(vs) |-> Req(key \o "." \o ToString(k), SortedAt(vs, k - 1))]
+                       ELSE IF vs = <<>> THEN <<AnyV(key)>> ELSE [k \in 1..Len(vs) |-> AnyV(key \o "." \o ToString(k))]
+                  [] a.k = "percentiles" ->          \* a map keyed by percentile: emitted flattened as percentiles.25, percentiles.75
+                       [k \in 1..Len(PercentilesList) |->
+                          IF sortable THEN Req(key \o "." \o ToString(PercentilesList[k]), Percentile(vs, PercentilesList[k]))
+                          ELSE AnyV(key \o "." \o ToString(PercentilesList[k]))]
+                  [] OTHER -> <<IF DslDetermined(a, vs) THEN Req(key, DslValue(a, vs)) ELSE AnyV(key)>>
+  IN << Rec(Flatten1([m \in 1..Len(c.a) |-> one(c.a[m])])) >>
+
 \* ---------------------------------------------------------------- the verdict on one observed output
 Allowed(c, s, out) ==
   CASE c.v = "count" -> Match(ExpCount(c, s), out)
     [] c.v = "count-distinct" -> Match(ExpCountDistinct(c, s), out)
     [] c.v = "uniq" -> Match(ExpUniq(c, s), out)
     [] c.v = "count-similar" -> AllowedCountSimilar(c, s, out)
+    [] c.v = "stats1" /\ c.n > 0 -> \E rd \in {"records", "contributing"} : Match(ExpStats1W(c, s, rd), out)
     [] c.v = "stats1" -> \E go \in GroupOrders : Match(ExpStats1(c, s, go), out)
     [] c.v = "merge-fields" -> Match(IF HasOpt(c, "-c") THEN ExpMergeCollapse(c, s) ELSE ExpMerge(c, s), out)
     [] c.v = "step" -> AllowedStep(c, s, out)
@@ -401,6 +465,7 @@ Allowed(c, s, out) ==
     [] c.v = "fill-empty" -> Match(ExpFillEmpty(c, s), out)
     [] c.v = "fraction" -> \E rd \in {"1", "1.0"} : Match(ExpFraction(c, s, rd), out)
     [] c.v = "histogram" -> Match(ExpHistogram(c, s), out)
+    [] c.v = "dsl-stats" -> Match(ExpDsl(c, s), out)
     [] OTHER -> FALSE
 
 \* ---------------------------------------------------------------- what to say about a non-conforming observation (no verdict here)
@@ -409,6 +474,7 @@ Pattern(c, s) ==
   CASE c.v = "count" -> ExpCount(c, s)
     [] c.v = "count-distinct" -> ExpCountDistinct(c, s)
     [] c.v = "uniq" -> ExpUniq(c, s)
+    [] c.v = "stats1" /\ c.n > 0 -> ExpStats1W(c, s, "records")
     [] c.v = "stats1" -> ExpStats1(c, s, "keyed")
     [] c.v = "merge-fields" -> IF HasOpt(c, "-c") THEN ExpMergeCollapse(c, s) ELSE ExpMerge(c, s)
     [] c.v = "step" -> ExpStep(c, s, [lag |-> "skip", ff |-> "from_first"])
@@ -416,6 +482,7 @@ Pattern(c, s) ==
     [] c.v = "fill-empty" -> ExpFillEmpty(c, s)
     [] c.v = "fraction" -> ExpFraction(c, s, "1")
     [] c.v = "histogram" -> ExpHistogram(c, s)
+    [] c.v = "dsl-stats" -> ExpDsl(c, s)
     [] OTHER -> <<>>
 \* names of the fields whose text differs, when the output has the shape of the pattern
 MismatchFields(pat, out) ==
